@@ -1,5 +1,6 @@
 //! C06: Batched (all four sort/shuffle modes, both limit types) against the model.
-//! input  = (sort shuffle prefetch limit ty seed sizes)   items are (position, size)
+//! input  = (sort shuffle prefetch limit ty seed sizes)   items are (position, size); prefetch, limit and the
+//!          sizes are written (hi lo) = hi * 2^32 + lo when they are 2^62 or more (EXTREME stream: every usize)
 //! output = (batches rep obs) | (2 batches) more batches than items | (-777) panic | (-778) hang
 //!          batches = lists of item positions; rep = a second run with the same seed
 //!          produced the same batches (and pulled upstream at the same moments);
@@ -22,6 +23,11 @@
 //!   sub-sequences comes from the crate's own find_subsequences_of_max_size_k on the sorted
 //!   sizes of the items known to be in the buffer. The oracle model run with these decisions must emit
 //!   the implementation's batches, and it rejects a decision recorded for another buffer length.
+//! MACHINE line (every case, both cargo profiles): the machine-integer model of the repaired code
+//! (C06_Machine.v, `usize` = 64 bits, every + - * a numbered operation, overflow = panic with overflow checks /
+//! wrapped value without) must emit the implementation's batches in BOTH profiles of the model; the debug harness
+//! is built with overflow checks, the release harness without (tags ovf:checked / ovf:wrapping, measured at
+//! start-up). The unbounded (unary) model runs next to it on inputs whose numbers are below 2^21.
 use rand::seq::SliceRandom;
 use rand::{Rng as _, SeedableRng};
 use rand_chacha::ChaCha8Rng;
@@ -41,7 +47,53 @@ const CONFIRM_MS: u64 = 6000;
 
 struct C06 {
     hung: bool,
+    /// this binary panics on integer overflow (debug profile) / wraps (release profile)
+    checked: bool,
 }
+
+/// does this binary panic on integer overflow (cargo profile with overflow-checks) or wrap?
+fn overflow_checked() -> bool {
+    let a = std::hint::black_box(usize::MAX);
+    let b = std::hint::black_box(1usize);
+    let hook = std::panic::take_hook();
+    std::panic::set_hook(Box::new(|_| {}));
+    #[allow(arithmetic_overflow)]
+    let r = std::panic::catch_unwind(move || std::hint::black_box(a + b)).is_err();
+    std::panic::set_hook(hook);
+    r
+}
+
+/// a usize on the wire: an integer below 2^62, else (hi lo) with hi, lo < 2^32
+fn big(v: &Val) -> Option<usize> {
+    match v {
+        Val::I(i) => usize::try_from(*i).ok(),
+        Val::L(l) if l.len() == 2 => {
+            let hi = l[0].as_usize()?;
+            let lo = l[1].as_usize()?;
+            if hi >= 1 << 32 || lo >= 1 << 32 {
+                return None;
+            }
+            Some((hi << 32) | lo)
+        }
+        _ => None,
+    }
+}
+
+fn big_val(u: usize) -> Val {
+    if u < 1 << 62 {
+        Val::u(u)
+    } else {
+        Val::L(vec![Val::u(u >> 32), Val::u(u & 0xFFFF_FFFF)])
+    }
+}
+
+/// the numbers of the case are those of the small domain (the unary model runs on it: C06_Machine.smallb)
+const SMALL: usize = 1 << 21;
+fn is_small(c: &Cfg) -> bool {
+    c.limit < SMALL && c.prefetch < SMALL && c.sizes.iter().all(|s| *s < SMALL)
+}
+/// the EXTREME domain: any usize for limit, prefetch and sizes, few items
+const EXT_ITEMS: usize = 8;
 
 #[derive(Clone, Debug)]
 struct Item {
@@ -71,12 +123,12 @@ fn parse_input(input: &Val) -> Option<Cfg> {
     if l.len() != 7 {
         return None;
     }
-    let sizes: Vec<usize> = l[6].as_l()?.iter().map(|v| v.as_usize()).collect::<Option<_>>()?;
+    let sizes: Vec<usize> = l[6].as_l()?.iter().map(big).collect::<Option<_>>()?;
     Some(Cfg {
         sort: l[0].as_bool()?,
         shuffle: l[1].as_bool()?,
-        prefetch: l[2].as_usize()?,
-        limit: l[3].as_usize()?,
+        prefetch: big(&l[2])?,
+        limit: big(&l[3])?,
         ty: l[4].as_i()?,
         seed: u64::try_from(l[5].as_i()?).ok()?,
         sizes,
@@ -87,11 +139,11 @@ fn to_val(c: &Cfg) -> Val {
     Val::L(vec![
         Val::b(c.sort),
         Val::b(c.shuffle),
-        Val::u(c.prefetch),
-        Val::u(c.limit),
+        big_val(c.prefetch),
+        big_val(c.limit),
         Val::I(c.ty),
         Val::I(c.seed as i64),
-        Val::list(c.sizes.iter(), |s| Val::u(*s)),
+        Val::list(c.sizes.iter(), |s| big_val(*s)),
     ])
 }
 
@@ -162,7 +214,8 @@ fn lehmer(idx: &[usize]) -> Vec<usize> {
 /// The rng decisions of a run, replayed in lock-step from the seed. `None` if what was observed
 /// is inconsistent (more emitted than pulled, unknown ids): no exact line for such an output.
 fn observe(c: &Cfg, batches: &[Vec<usize>], pulls: &[usize]) -> Option<Val> {
-    if !c.shuffle {
+    // the lock-step line belongs to the unary oracle model: only on the small domain
+    if !c.shuffle || !is_small(c) {
         return None;
     }
     let mut rng = ChaCha8Rng::seed_from_u64(c.seed);
@@ -190,7 +243,7 @@ fn observe(c: &Cfg, batches: &[Vec<usize>], pulls: &[usize]) -> Option<Val> {
             sorted.sort();
             let ty = c.ty;
             let m = find_subsequences_of_max_size_k(&sorted, limit, |sub: &[usize]| {
-                if ty == 0 { sub.len() } else { sub.len() * sub.iter().copied().max().unwrap_or(0) }
+                if ty == 0 { sub.len() } else { sub.len().saturating_mul(sub.iter().copied().max().unwrap_or(0)) }
             })
             .len();
             if m == 0 {
@@ -213,7 +266,7 @@ impl C06 {
     fn watched(&mut self, c: &Cfg) -> Val {
         let c1 = c.clone();
         // scale cases (hundreds to tens of thousands of items, buffers of thousands) get a longer budget
-        let big = c.sizes.len() > 200 || c.limit.max(1).saturating_mul(c.prefetch.max(1)) > 1000;
+        let big = c.sizes.len() > 200 || (is_small(c) && c.limit.max(1).saturating_mul(c.prefetch.max(1)) > 1000);
         let v = with_timeout(if big { 30000 } else { TIMEOUT_MS }, move || drain(&c1));
         if v != Val::hang() {
             return v;
@@ -380,10 +433,154 @@ fn gen_scale(rng: &mut Rng) -> Cfg {
     Cfg { sort, shuffle, prefetch, limit, ty, seed, sizes }
 }
 
+/// values around the powers of two where 32-bit and 64-bit arithmetic changes behaviour
+const EXT: &[usize] = &[
+    0,
+    1,
+    2,
+    3,
+    (1 << 31) - 1,
+    1 << 31,
+    (1 << 31) + 1,
+    (1 << 32) - 1,
+    1 << 32,
+    (1 << 32) + 1,
+    (1 << 62) - 1,
+    1 << 62,
+    (1 << 62) + 1,
+    (1 << 63) - 1,
+    1 << 63,
+    (1 << 63) + 1,
+    usize::MAX - 1,
+    usize::MAX,
+];
+
+/// EXTREME stream: limit, prefetch factor and item sizes over the whole of usize, 1-6 items (sometimes 0, 7, 8).
+/// Arms: everything from EXT; products that cross 2^64 exactly (count * size with size = ceil(2^64 / count) and one
+/// less; limit * prefetch = 2^64, 2^64 - 1, 2^64 + limit); a limit that is the (wrapped / saturated / exact) padded size
+/// of a prefix of the items; one huge item among small ones; small everything but one field.
+fn gen_extreme(rng: &mut Rng) -> Cfg {
+    let mode = rng.below(4);
+    let (sort, shuffle) = (mode & 1 == 1, mode & 2 == 2);
+    let mut ty = if rng.chance(2, 3) { 1 } else { 0 };
+    let seed = if rng.chance(1, 3) { rng.below(4) as u64 } else { rng.next_u64() >> 3 };
+    let n = match rng.below(10) {
+        0 => 0,
+        1 => 7,
+        2 => 8,
+        _ => rng.range(1, 6),
+    };
+    let ext = |rng: &mut Rng| *rng.pick(EXT);
+    let near = |rng: &mut Rng, x: usize| match rng.below(4) {
+        0 => x.wrapping_sub(1),
+        1 => x.wrapping_add(1),
+        _ => x,
+    };
+    let small = |rng: &mut Rng| rng.below(7);
+    let (mut limit, mut prefetch): (usize, usize);
+    let mut sizes: Vec<usize>;
+    match rng.below(8) {
+        0 | 1 => {
+            // everything from the table
+            limit = ext(rng);
+            prefetch = if rng.chance(1, 2) { ext(rng) } else { rng.below(4) };
+            sizes = (0..n).map(|_| if rng.chance(2, 3) { ext(rng) } else { small(rng) }).collect();
+        }
+        2 => {
+            // count * size crosses 2^64: size = ceil(2^64 / c), c = 2..6 (and one less), c or more such items
+            let c = rng.range(2, 6);
+            let s = (usize::MAX / c) + 1; // ceil(2^64 / c) for c that does not divide 2^64; 2^64 / c otherwise
+            let s = if rng.chance(1, 3) { s - 1 } else { s };
+            sizes = (0..n.max(c)).map(|_| if rng.chance(4, 5) { s } else { small(rng) }).collect();
+            sizes.truncate(EXT_ITEMS);
+            ty = 1;
+            limit = match rng.below(5) {
+                0 => ext(rng),
+                1 => s,
+                2 => s.wrapping_mul(c), // what the pinned release build computes
+                3 => rng.below(12),
+                _ => usize::MAX - rng.below(2),
+            };
+            prefetch = rng.below(4);
+        }
+        3 => {
+            // limit * prefetch around 2^64
+            let (l, p) = *rng.pick(&[
+                (1usize << 63, 2usize),
+                (1 << 32, 1 << 32),
+                ((1 << 32) - 1, (1 << 32) + 1), // 2^64 - 1
+                ((1 << 32) + 1, (1 << 32) - 1),
+                (1 << 62, 4),
+                ((1 << 62) + 1, 4),
+                (usize::MAX, 2),
+                (2, usize::MAX),
+                (usize::MAX, usize::MAX),
+                (usize::MAX / 3, 3), // 2^64 - 1
+                (usize::MAX / 3 + 1, 3),
+                (3, usize::MAX / 3 + 1),
+                (1 << 63, 3), // wraps to 2^63
+                ((1 << 63) + 1, 2), // wraps to 2
+            ]);
+            limit = near(rng, l);
+            prefetch = p;
+            sizes = (0..n).map(|_| if rng.chance(1, 3) { ext(rng) } else { small(rng) }).collect();
+        }
+        4 => {
+            // the limit is the padded size of a prefix: exact, saturated, wrapped, one off
+            sizes = (0..n.max(1)).map(|_| if rng.chance(1, 2) { ext(rng) } else { small(rng) }).collect();
+            let k = rng.range(1, sizes.len());
+            let mx = sizes[..k].iter().copied().max().unwrap_or(0);
+            let v = match rng.below(3) {
+                0 => k.saturating_mul(mx),
+                1 => k.wrapping_mul(mx),
+                _ => mx,
+            };
+            limit = near(rng, v);
+            prefetch = rng.below(4);
+            ty = 1;
+        }
+        5 => {
+            // one huge item among small ones, small limit
+            sizes = (0..n.max(1)).map(|_| small(rng)).collect();
+            let k = rng.below(sizes.len());
+            sizes[k] = ext(rng);
+            limit = rng.below(13);
+            prefetch = rng.below(4);
+        }
+        6 => {
+            // small everything, one extreme configuration field
+            sizes = (0..n).map(|_| small(rng)).collect();
+            limit = rng.below(13);
+            prefetch = rng.below(4);
+            if rng.chance(1, 2) { limit = ext(rng) } else { prefetch = ext(rng) }
+        }
+        _ => {
+            // all sizes equal and huge; limit a multiple
+            let s = ext(rng);
+            sizes = vec![s; n];
+            limit = match rng.below(4) {
+                0 => s,
+                1 => s.saturating_mul(2),
+                2 => s.wrapping_mul(rng.range(2, 5)),
+                _ => ext(rng),
+            };
+            prefetch = rng.below(3);
+        }
+    }
+    if limit == 0 && prefetch == 0 && rng.chance(1, 2) {
+        limit = ext(rng);
+        prefetch = ext(rng);
+    }
+    Cfg { sort, shuffle, prefetch, limit, ty, seed, sizes }
+}
+
 impl Prop for C06 {
     fn gen(&mut self, rng: &mut Rng, tier: Tier, i: usize, _n: usize) -> Val {
         if i == 2 || rng.chance(1, 100) {
             return to_val(&gen_scale(rng));
+        }
+        if i == 3 || i == 4 || rng.chance(1, 12) {
+            return to_val(&gen_extreme(rng));
         }
         if rng.chance(3, 10) {
             return to_val(&gen_boundary(rng));
@@ -455,11 +652,15 @@ impl Prop for C06 {
 
     fn run(&mut self, input: &Val) -> Option<(Val, Vec<String>)> {
         let c = parse_input(input)?;
-        // domain of the harness: the model counts in unary, so the products stay below 2^22
-        if c.sizes.len() > MAX_ITEMS || c.sizes.iter().any(|s| *s > MAX_SIZE) || c.limit > MAX_LIMIT || c.prefetch > MAX_PREFETCH {
-            return None;
-        }
-        if c.limit.max(1) * c.prefetch.max(1) > MAX_PRODUCT || c.sizes.len() * c.sizes.iter().copied().max().unwrap_or(0) > (1 << 26) {
+        // domain of the harness: SMALL (the unary model counts in unary, so the products stay below 2^22), or
+        // EXTREME (at most EXT_ITEMS items, every usize for limit, prefetch and sizes: the machine model only)
+        let small_domain = c.sizes.len() <= MAX_ITEMS
+            && c.sizes.iter().all(|s| *s <= MAX_SIZE)
+            && c.limit <= MAX_LIMIT
+            && c.prefetch <= MAX_PREFETCH
+            && c.limit.max(1).saturating_mul(c.prefetch.max(1)) <= MAX_PRODUCT
+            && c.sizes.len().saturating_mul(c.sizes.iter().copied().max().unwrap_or(0)) <= (1 << 26);
+        if !small_domain && c.sizes.len() > EXT_ITEMS {
             return None;
         }
         if !(0..2).contains(&c.ty) || c.seed >= 1 << 62 {
@@ -476,6 +677,28 @@ impl Prop for C06 {
         }
         .to_string()];
         tags.push(if c.ty == 0 { "batch_size".into() } else { "padded".into() });
+        tags.push(if self.checked { "ovf:checked".into() } else { "ovf:wrapping".into() });
+        let lp_overflows = (c.limit.max(1) as u128) * (c.prefetch.max(1) as u128) > usize::MAX as u128;
+        let pad_overflows =
+            c.ty == 1 && (c.sizes.len() as u128) * (c.sizes.iter().copied().max().unwrap_or(0) as u128) > usize::MAX as u128;
+        if !is_small(&c) {
+            tags.push("extreme".into());
+            if c.limit >= 1 << 31 {
+                tags.push("ext-limit".into());
+            }
+            if c.prefetch >= 1 << 31 {
+                tags.push("ext-prefetch".into());
+            }
+            if c.sizes.iter().any(|s| *s >= 1 << 31) {
+                tags.push("ext-size".into());
+            }
+            if lp_overflows && (c.sort || c.shuffle) {
+                tags.push("ext-bound-overflows".into()); // limit * prefetch is no usize: site 4 of the machine model
+            }
+            if pad_overflows {
+                tags.push("ext-padded-overflows".into()); // (number of items) * (largest size) is no usize: site 3 can be reached
+            }
+        }
         let first = self.watched(&c);
         let Some(fl) = first.as_l() else {
             return Some((first, tags));
@@ -518,10 +741,15 @@ impl Prop for C06 {
         }
         // boundary situations that actually occurred
         if let (Some(ids), Some(pulls)) = (&ids, &pulls) {
-            let value = |b: &Vec<usize>| {
+            let value = |b: &Vec<usize>| -> u128 {
                 let mx = b.iter().map(|i| c.sizes.get(*i).copied().unwrap_or(0)).max().unwrap_or(0);
-                if c.ty == 0 { b.len() } else { b.len() * mx }
+                if c.ty == 0 { b.len() as u128 } else { b.len() as u128 * mx as u128 }
             };
+            let lim = lim as u128;
+            // known finding LIMIT-MAX: with a limit of usize::MAX the saturated product can never exceed the limit
+            if c.ty == 1 && c.limit == usize::MAX && ids.iter().any(|b| b.len() >= 2 && value(b) > lim) {
+                tags.push("class:LIMIT-MAX".into());
+            }
             if ids.iter().any(|b| b.len() >= 2 && value(b) == lim) {
                 tags.push("full-batch".into()); // a batch exactly at the limit
             }
@@ -549,7 +777,7 @@ impl Prop for C06 {
                 (nb >= 255, "scale-batches"),
                 (maxb >= 255, "scale-batchlen"),
             ];
-            if dims.iter().any(|d| d.0) {
+            if is_small(&c) && dims.iter().any(|d| d.0) {
                 tags.push("scale".into());
                 tags.extend(dims.iter().filter(|d| d.0).map(|d| d.1.to_string()));
             }
@@ -561,6 +789,12 @@ impl Prop for C06 {
         let l = input.as_l()?;
         if l.len() != 7 {
             return None;
+        }
+        // a case of the EXTREME domain stays what it is (the shrinker may drop items and lower numbers)
+        if let Some(c) = parse_input(input) {
+            if c.sizes.len() <= EXT_ITEMS && !is_small(&c) && (0..2).contains(&c.ty) && c.seed < 1 << 62 {
+                return Some(to_val(&c));
+            }
         }
         let u = |v: &Val, m: i64| v.as_i().unwrap_or(0).rem_euclid(m);
         let sizes: Vec<usize> = l[6].as_l()?.iter().take(MAX_ITEMS).map(|v| u(v, MAX_SIZE as i64 + 1) as usize).collect();
@@ -580,6 +814,20 @@ impl Prop for C06 {
     fn selfcheck(&mut self) -> Vec<String> {
         // different seeds give different batch sequences sometimes (shuffle modes)
         let mut errs = vec![];
+        // the tie of the two profiles of the machine model: the debug harness must trap overflow, the release one wrap
+        if cfg!(debug_assertions) != self.checked {
+            errs.push(format!(
+                "overflow behaviour of this binary (checked = {}) does not match its cargo profile (debug = {})",
+                self.checked,
+                cfg!(debug_assertions)
+            ));
+        }
+        // wire format of huge numbers
+        for u in [0usize, 1, (1 << 62) - 1, 1 << 62, (1 << 63) + 5, usize::MAX] {
+            if big(&big_val(u)) != Some(u) {
+                errs.push(format!("big/big_val round trip of {u}"));
+            }
+        }
         for sort in [false, true] {
             let mut distinct = std::collections::HashSet::new();
             for seed in 0..16u64 {
@@ -620,5 +868,5 @@ impl Prop for C06 {
 }
 
 fn main() {
-    main_loop(C06 { hung: false });
+    main_loop(C06 { hung: false, checked: overflow_checked() });
 }
